@@ -606,7 +606,10 @@ attrsLoop:
 							if p.srcRewriter != nil {
 								parsedURL, err := url.Parse(u)
 								if err != nil {
-									fmt.Println(err)
+									// the normalised URL no longer parses, there
+									// is nothing to hand to the rewriter: drop
+									// the attribute like any unparseable URL
+									break
 								}
 								p.srcRewriter(parsedURL)
 								u = parsedURL.String()
